@@ -648,7 +648,10 @@ def build_pf_shards(ctx):
     cases = []
     for depth, arg in args:
         for pf in PFS:
-            for k in (SHIFTS if (depth <= 1 or not ctx.quick) else QUICK_DEPTH2_SHIFTS):
+            shifts = list(SHIFTS if (depth <= 1 or not ctx.quick) else QUICK_DEPTH2_SHIFTS)
+            if depth <= 1 and not pf.startswith("mov_"):
+                shifts.append(0)      # an explicit zero shift is a shift by zero, not "no shift given" (a window of 0 terms is undefined)
+            for k in shifts:
                 ctxs = range(len(CONTEXTS)) if (depth <= 1 or not ctx.quick) else (len(cases) % 3,)
                 for c in ctxs:
                     cases.append((pf, arg, k, c))
@@ -669,6 +672,62 @@ def _depth(tr):
     return 1 + max(_depth(a) for a in tr[1:] if isinstance(a, tuple))
 
 
+# ---------------------------------------------------------------------------
+# Part C — one source text, several preparser contexts, every order of use in one process
+# ---------------------------------------------------------------------------
+
+CTXSEQ_SRC = """
+!transition-variables x, y
+!transition-shocks e
+!parameters a, b
+!transition-equations
+!if regime == "fixed" !then
+    x = a*x[-1] + 1 + e;
+!else
+    x = b*x[-1] + y[+1]^2 + e;
+!end
+!if deep !then
+    y = <k>*y[-1] + 0.5;
+!else
+    y = <k>*y[-1] + !for ?w = <terms> !do + ?w*x !end;
+!end
+"""
+CTXSEQ_CONTEXTS = {
+    "F": ({"regime": "fixed", "deep": True, "k": 0.5, "terms": [2]}, ["x=a*x[-1]+1+e", "y=0.5*y[-1]+0.5"]),
+    "G": ({"regime": "float", "deep": False, "k": 0.25, "terms": [2, 3]}, ["x=b*x[-1]+y[+1]^2+e", "y=0.25*y[-1]++2*x+3*x"]),
+    "H": ({"regime": "float", "deep": True, "k": 0.75, "terms": [3]}, ["x=b*x[-1]+y[+1]^2+e", "y=0.75*y[-1]+0.5"]),
+    "I": ({"regime": "fixed", "deep": False, "k": 0.125, "terms": [5]}, ["x=a*x[-1]+1+e", "y=0.125*y[-1]++5*x"]),
+}
+
+
+def _norm_eq(t):
+    return "".join(str(t).split()).replace("(e+ant_e)", "e")
+
+
+def shard_context_sequences(item, res, ctx):
+    """every sequence of up to 3 contexts: the same text is parsed under each in turn, in this process; the model
+    built last must contain the equations of ITS context (state kept from an earlier parse of the same text would not)"""
+    for n in (1, 2, 3):
+        for seq in itertools.product(sorted(CTXSEQ_CONTEXTS), repeat=n):
+            res.ev()
+            case = {"part": "context_sequence", "sequence": list(seq)}
+            try:
+                m = None
+                for k in seq:
+                    m = ir.Simultaneous.from_string(CTXSEQ_SRC, context=dict(CTXSEQ_CONTEXTS[k][0]), linear=False)
+                got = [_norm_eq(t) for t in m.get_dynamic_equations()]
+            except Exception as e:
+                res.violation("context_sequence", {"part": "context_sequence", "error": type(e).__name__}, case, "%s: %s" % (type(e).__name__, str(e)[:300]))
+                continue
+            exp = CTXSEQ_CONTEXTS[seq[-1]][1]
+            res.nt(("context_sequence",) + tuple(seq))
+            res.count("context_sequences_checked")
+            if got != exp:
+                res.violation("context_sequence", {"part": "context_sequence", "last": seq[-1], "length": n}, case,
+                              "parsed under contexts %s in turn: the last model holds %r, its context says %r" % ("->".join(seq), got, exp))
+    res.sample({"part": "context_sequence", "source": CTXSEQ_SRC, "contexts": {k: v[0] for k, v in CTXSEQ_CONTEXTS.items()}})
+
+
 def run(ctx, total, info):
     mshards, plan = build_model_shards(ctx)
     pshards, pplan = build_pf_shards(ctx)
@@ -677,6 +736,7 @@ def run(ctx, total, info):
     mshards.sort(key=lambda it: -(it[4] - it[3]))
     d1, n1 = engine.run_shards(__name__, "shard_models", mshards, ctx, total, deadline=deadline)
     d2, n2 = engine.run_shards(__name__, "shard_pf", pshards, ctx, total, deadline=deadline)
+    engine.run_shards(__name__, "shard_context_sequences", [0], ctx, total)
     c = total.counters
     info["exhaustive"] = (d1 == n1 and d2 == n2)
     if not info["exhaustive"]:
@@ -684,7 +744,7 @@ def run(ctx, total, info):
     info["bound_completed"] = {"switches_full_product_per_model": {k: len(v["full_product_over"]) for k, v in plan.items()},
                                "pairwise_over_all_relevant_switches": True, "pf_argument_depth": 2}
     info["space"] = {"base_models": len(plan), "plan": plan, "pseudofunction_table": pplan,
-                     "switches": G.SWITCHES, "pf_contexts": CONTEXTS, "pf_shifts": ["default", -1, -2, -4, 2],
+                     "switches": G.SWITCHES, "pf_contexts": CONTEXTS, "pf_shifts": ["default", -1, -2, -4, 2, "0 (not for moving windows)"],
                      "pf_shifts_quick_depth2": ["default", -2, 2] if ctx.quick else None}
     info["rejected_by_implementation"] = {k: v for k, v in c.items() if k.startswith("pf_rejected") or k.startswith("rejected")}
     texts = sum(len(v) for k, v in total.classes.items() if k.startswith("texts:"))
@@ -698,6 +758,7 @@ def run(ctx, total, info):
         "models_with_200_distinct_texts": (sum(1 for k, v in total.classes.items() if k.startswith("texts:") and len(v) >= 200), len(plan)),
         "least_used_switch_on_count": (on_min, 400 if q else 15000),
         "pf_cases_exact": (c.get("pf_cases_exact", 0), 19000 if q else 850000),
+        "context_sequences_checked": (c.get("context_sequences_checked", 0), 84),
         "pf_rejections_of_known_limits_seen": (sum(v for k, v in c.items() if k.startswith("pf_rejected_allowed:")), 600),
     }
 
@@ -709,6 +770,8 @@ def replay(case):
         seed = case.get("seed", 0)
         base = check_program(case["model"], zero, seed, engine.Result())
         check_program(case["model"], dict(zero, **case.get("switches", {})), seed, res, baseline=base)
+    elif case.get("part") == "context_sequence":
+        shard_context_sequences(0, res, engine.Ctx("quick", 0))
     elif case.get("part") == "pf":
         def tup(x):
             return tuple(tup(y) for y in x) if isinstance(x, list) else x
